@@ -11,6 +11,8 @@ for p in selftest/mutants/*.patch; do
   out=$(WKV_NO_EVIDENCE=1 ./check "$prop" 2>&1); rc=$?
   git -C /repo apply -R "$PWD/$p"
   if echo "$out" | grep -q "load_failure"; then echo "INVALID $name: mutant does not compile"; fail=1
+  elif [ $rc -eq 1 ] && echo "$out" | grep -q "^VIOLATION property=$prop replay=.*/bounded_" && ! echo "$out" | grep -q '^FAILED'; then
+    echo "ok   $name: $(echo "$out" | grep -c '^VIOLATION') violation(s) from the bounded harness: $(echo "$out" | grep '^VIOLATION' | head -1 | sed 's/.*bounded_//' | cut -c1-100)"
   elif [ $rc -eq 1 ] && echo "$out" | grep -q "^VIOLATION property=$prop" && ! echo "$out" | grep -q '^FAILED'; then
     # only engine problems (contract drift, clause errors): the mutant changed the shape the contract
     # is written against - a legitimate alarm, but make sure the same problem is absent on the unchanged tree
